@@ -81,17 +81,25 @@ def _unescape_tla(s: str) -> str:
 
 
 def run(module: str, cfg: str, *, workers: int | str = "auto", timeout: int = 600, env_extra: dict | None = None,
-        args: list[str] | None = None, coverage: bool = False, heap: str = "4g", cwd: str | None = None) -> TLCResult:
-    """Run TLC on spec/<module>.tla with config text or path `cfg`."""
+        args: list[str] | None = None, coverage: bool = False, heap: str = "4g", cwd: str | None = None,
+        module_text: str | None = None) -> TLCResult:
+    """Run TLC on spec/<module>.tla with config text or path `cfg`.
+
+    module_text: a generated root module (constants as definitions) that EXTENDS a spec under spec/.
+    """
     work = tempfile.mkdtemp(prefix="tlc-", dir=env.workdir())
     specdir = cwd or env.SPEC
+    if module_text is not None:
+        specdir = work
+        with open(os.path.join(work, module + ".tla"), "w") as f:
+            f.write(module_text)
     if "\n" in cfg or not cfg.endswith(".cfg"):
         cfg_path = os.path.join(work, f"{module}.cfg")
         with open(cfg_path, "w") as f:
             f.write(cfg)
     else:
         cfg_path = cfg if os.path.isabs(cfg) else os.path.join(specdir, cfg)
-    cmd = ["java", "-XX:+UseParallelGC", f"-Xmx{heap}", "-cp", JAVA_CP, "tlc2.TLC",
+    cmd = ["java", "-XX:+UseParallelGC", f"-Xmx{heap}", f"-DTLA-Library={env.SPEC}", "-cp", JAVA_CP, "tlc2.TLC",
            "-workers", str(workers), "-metadir", os.path.join(work, "meta"), "-noGenerateSpecTE",
            "-config", cfg_path]
     if coverage:
